@@ -110,9 +110,11 @@ theorem turn_total' (a : Int) (h1 : -180 ≤ a) (h2 : a ≤ 180) : (turnOfAngle 
     simp only [Int.toNat_of_nonneg (by omega : 0 ≤ a + 180)]; omega
   rw [e] at h; exact h
 
-/-- **every** angle outside [-180, 180] is rejected (the table's ranges all lie inside): in particular
-the difference of two headings far outside [0, 360) — the loader accepts any `i16`, and since /repo
-a90456f the difference is taken without overflow — is an access error, never an ordinary turn -/
+/-- **every** angle outside [-180, 180] is rejected (the table's ranges all lie inside).  Headings
+outside [0, 360) — the loader accepts any `i16`, and since /repo a90456f the difference is taken
+without overflow — give an access error exactly when their (once-wrapped) difference leaves
+[-180, 180]; two such headings whose difference is small are an ordinary turn (1000 → 1010 is
+"no turn": `far_headings_small_difference_is_a_turn`). -/
 theorem turn_rejects_every_angle_outside (a : Int) (h : a < -180 ∨ 180 < a) : turnOfAngle a = none := by
   have hall : turnRanges.all (fun r => decide (-180 ≤ r.1) && decide (r.2.1 ≤ 180)) = true := by
     decide +kernel
@@ -126,8 +128,26 @@ theorem turn_rejects_every_angle_outside (a : Int) (h : a < -180 ∨ 180 < a) : 
     omega
   rw [this]
 
-/-- angles outside [-180, 180] are rejected -/
-theorem turn_rejects_outside : turnOfAngle 181 = none ∧ turnOfAngle (-181) = none := by decide +kernel
+/-- two headings far outside [0, 360) whose difference is small classify as an ordinary turn -/
+theorem far_headings_small_difference_is_a_turn :
+    turnOfAngle (bearing (1000, none) (1010, none)) = some .noTurn := by decide +kernel
+
+/-- the code's final `wrapped.clamp(i16::MIN, i16::MAX) as i16` in `bearing_to_destination`, which
+`Model/Instance.lean`'s `bearing` does not have -/
+def clampI16 (a : Int) : Int := max (-32768) (min 32767 a)
+
+/-- the clamp never changes the classification: leaving it out of the model's `bearing` is harmless for
+`Turn::from_angle`, its only consumer (as numbers the two bearings can differ:
+`bearing (0, some (-32768)) (32767, none) = 65175`, clamped to 32767 by the code) -/
+theorem turnOfAngle_clamp (a : Int) : turnOfAngle (clampI16 a) = turnOfAngle a := by
+  by_cases h : -180 ≤ a ∧ a ≤ 180
+  · have : clampI16 a = a := by unfold clampI16; omega
+    rw [this]
+  · rw [turn_rejects_every_angle_outside a (by omega),
+      turn_rejects_every_angle_outside (clampI16 a) (by unfold clampI16; omega)]
+
+example : bearing (0, some (-32768)) (32767, none) = 65175 ∧ clampI16 65175 = 32767 ∧
+    turnOfAngle (clampI16 65175) = none ∧ turnOfAngle 65175 = none := by decide +kernel
 
 /-- the class boundaries as the property describes them: straight ahead is "no turn",
 a quarter turn to the right is "right", a reversal is a U-turn (spot checks on the generated table;
@@ -308,8 +328,11 @@ The two premises are premises on the *data*, not on the run: `hlen` (no edge of 
 negative length — graph data, C15 reads lengths as they stand) and `hdel`
 (`RouteSums.DelaysNonneg`: no configured turn delay is negative).  `hdel` holds of every access model
 `TurnDelayAccessModelBuilder` returns (`turn_delay_builder_delays_nonneg`, since /repo c0bacb8; before,
-any number was accepted).  Without it the statement is false:
-`route_monotone_negative_delay_counterexample`. -/
+any number was accepted).  Without either the statement is false:
+`route_monotone_negative_delay_counterexample`, `route_monotone_negative_length_counterexample`.
+Vertex-oriented; the edge-oriented form is `dijkstra_edge_oriented_route_monotone`.  The statement
+speaks of both slots, so it also assumes that a "time" feature exists (`hj`, `hjk`); for a state model
+with a distance feature only use `dijkstra_route_distance_monotone`, which needs neither. -/
 theorem dijkstra_route_monotone (c : Config α) (hadj : c.AdjConsistent) (hwf : c.wf = some 0)
     {source t : Nat} {sched : List Nat} {res : SearchResult α} (hts : t ≠ source)
     (hrun : runVertexOriented c.inst source (some t) sched = .ok res)
@@ -330,6 +353,23 @@ theorem dijkstra_route_monotone (c : Config α) (hadj : c.AdjConsistent) (hwf : 
     fun hr => ⟨(RouteSums.route_distance_monotone hacc ⟨hi, hik⟩ hlen).1 hr,
       (RouteSums.route_time_monotone hacc ⟨hj, hjk⟩ hdel).1 hr⟩,
     RouteSums.route_monotone hacc ⟨hi, hik⟩ ⟨hj, hjk⟩ hlen hdel⟩
+
+/-- the distance half alone, without the premise that a "time" feature exists (distance-only state
+models; no premise on the access model either): with non-negative edge lengths the reported distance
+never decreases from the initial state to the first route element nor between consecutive elements -/
+theorem dijkstra_route_distance_monotone (c : Config α) (hadj : c.AdjConsistent)
+    (hwf : c.wf = some 0) {source t : Nat} {sched : List Nat} {res : SearchResult α}
+    (hts : t ≠ source) (hrun : runVertexOriented c.inst source (some t) sched = .ok res)
+    {i : Nat} {fu : DistanceUnit} (hi : featIndex c.feats "distance" = some i)
+    (hik : (c.feats[i]?).map (·.kind) = some (FeatKind.dist fu))
+    (hlen : ∀ er ∈ c.edges, 0 ≤ er.dist) :
+    ∃ route, res.route = some route ∧ route ≠ [] ∧
+      (∀ (hr : 0 < route.length) x y, (initialState c.feats)[i]? = some x →
+        route[0].state[i]? = some y → x ≤ y) ∧
+      ∀ k (hk : k + 1 < route.length) x y, route[k].state[i]? = some x →
+        route[k + 1].state[i]? = some y → x ≤ y := by
+  obtain ⟨route, h1, h2, hacc⟩ := dijkstra_route_links c hadj hwf hts hrun
+  exact ⟨route, h1, h2, RouteSums.route_distance_monotone hacc ⟨hi, hik⟩ hlen⟩
 
 /-- Dijkstra, every configuration: every slot other than "distance" and "time" reports its declared
 initial value on every route element. -/
@@ -499,6 +539,37 @@ theorem dijkstra_edge_oriented_route_summary (c : Config α) (hadj : c.AdjConsis
   refine ⟨_, inner, s, fd, ft, hroutes, ?_, by rw [hsum]; exact hs, hfd, hft, hdist, htime, hother⟩
   simp [ho, hd]
 
+/-- **edge-oriented monotonicity** (origin and destination edges not adjacent; Dijkstra; premises
+`hlen`, `hdel` as in `dijkstra_route_monotone`): along the inner elements of the route
+`origin :: inner ++ [dest]` distance and time never decrease — from the declared initial state (which
+`origin` carries) to the first inner element, and from one inner element to the next; `dest` repeats
+the state of the last inner element (`dijkstra_edge_oriented_route_accumulates`), so the whole reported
+route is monotone.  (Adjacent edges: the two-element route of `edge_oriented_adjacent_route_accumulates`
+satisfies the link relation, so `RouteSums.route_monotone` applies to it in the same way.) -/
+theorem dijkstra_edge_oriented_route_monotone (c : Config α) (hadj : c.AdjConsistent)
+    (hwf : c.wf = some 0) (source tgt : Nat) (sched : List Nat) (r : AlgResult α)
+    (e1 e2 : EdgeRec α) (h1 : c.edges[source]? = some e1) (h2 : c.edges[tgt]? = some e2)
+    (hne : source ≠ tgt) (hnadj : e1.dst ≠ e2.src)
+    (hrun : c.runEdge source (some tgt) sched = .ok r)
+    {i : Nat} {fu : DistanceUnit} (hi : featIndex c.feats "distance" = some i)
+    (hik : (c.feats[i]?).map (·.kind) = some (FeatKind.dist fu))
+    {j : Nat} {ftu : TimeUnit} (hj : featIndex c.feats "time" = some j)
+    (hjk : (c.feats[j]?).map (·.kind) = some (FeatKind.time ftu))
+    (hlen : ∀ er ∈ c.edges, 0 ≤ er.dist) (hdel : RouteSums.DelaysNonneg c.access) :
+    ∃ (inner : List (Branch α)) (origin dest : Branch α), r.routes = [origin :: inner ++ [dest]] ∧
+      (∀ (hr : 0 < inner.length),
+        (∀ x y, (initialState c.feats)[i]? = some x → inner[0].state[i]? = some y → x ≤ y) ∧
+        (∀ x y, (initialState c.feats)[j]? = some x → inner[0].state[j]? = some y → x ≤ y)) ∧
+      ∀ k (hk : k + 1 < inner.length),
+        (∀ x y, inner[k].state[i]? = some x → inner[k + 1].state[i]? = some y → x ≤ y) ∧
+        (∀ x y, inner[k].state[j]? = some x → inner[k + 1].state[j]? = some y → x ≤ y) := by
+  obtain ⟨inner, last, origin, dest, hroutes, _, _, _, _, _, _, _, _, _, _, hacc, _⟩ :=
+    dijkstra_edge_oriented_route_accumulates c hadj hwf source tgt sched r e1 e2 h1 h2 hne hnadj hrun
+  exact ⟨inner, origin, dest, hroutes,
+    fun hr => ⟨(RouteSums.route_distance_monotone hacc ⟨hi, hik⟩ hlen).1 hr,
+      (RouteSums.route_time_monotone hacc ⟨hj, hjk⟩ hdel).1 hr⟩,
+    RouteSums.route_monotone hacc ⟨hi, hik⟩ ⟨hj, hjk⟩ hlen hdel⟩
+
 /-- **edge-oriented, adjacent edges** (`e1.dst = e2.src`; any algorithm and direction): the route is
 the two edges, both really traversed in travel order — the origin edge from the declared initial state
 with no previous edge, the destination edge from the origin edge's state with the origin edge as
@@ -623,6 +694,43 @@ example : bearing (350, none) (10, none) = 20 := by decide
 /-- `staleConfig` run as Dijkstra (`weight_factor = 0`) -/
 def dijkstraConfig : Config ℚ := { staleConfig with wf := some 0 }
 
+theorem dijkstraConfig_adj : dijkstraConfig.AdjConsistent := by
+  intro v e he
+  match v with
+  | 0 => simp [Config.inst, dijkstraConfig, staleConfig] at he; rcases he with rfl | rfl <;> rfl
+  | 1 => simp [Config.inst, dijkstraConfig, staleConfig] at he; subst he; rfl
+  | 2 => simp [Config.inst, dijkstraConfig, staleConfig] at he; subst he; rfl
+  | 3 => simp [Config.inst, dijkstraConfig, staleConfig] at he; subst he; rfl
+  | 4 => simp [Config.inst, dijkstraConfig, staleConfig] at he
+  | n + 5 => simp [Config.inst, dijkstraConfig, staleConfig] at he
+
+/-- the two data premises of the monotonicity theorems hold of `dijkstraConfig` -/
+theorem dijkstraConfig_lengths_nonneg : ∀ er ∈ dijkstraConfig.edges, (0 : ℚ) ≤ er.dist := by
+  intro er her
+  simp only [dijkstraConfig, staleConfig, List.mem_cons, List.not_mem_nil, or_false] at her
+  rcases her with rfl | rfl | rfl | rfl | rfl <;> norm_num
+
+theorem dijkstraConfig_delays_nonneg : RouteSums.DelaysNonneg dijkstraConfig.access := by
+  intro d hd
+  have hd' : d = 0 ∨ d = 2000 ∨ d = 0 := by simpa [dijkstraConfig, staleConfig] using hd
+  rcases hd' with rfl | rfl | rfl <;> norm_num
+
+/-- `dijkstraConfig` with the edge w→u of length −50 m (the edge loader reads lengths as they stand) -/
+def negLenConfig : Config ℚ := { dijkstraConfig with
+  edges := [⟨0, 2, 1000⟩, ⟨0, 1, 100⟩, ⟨1, 2, -50⟩, ⟨2, 3, 100⟩, ⟨3, 4, 100⟩] }
+
+/-- why the monotonicity theorems assume non-negative edge lengths (`hlen`): with one edge of length
+−50 m the Dijkstra route s→w→u→v→t reports distance 100, 50, 150, 250 — the distance decreases on the
+second edge -/
+theorem route_monotone_negative_length_counterexample :
+    routeStatesOf (negLenConfig.runVertex 0 (some 4) [0, 1, 2, 3, 4]) =
+      some [[(1, [100, 0]), (2, [50, 0]), (3, [150, 2000]), (4, [250, 2000])]] ∧
+    ¬ (∀ er ∈ negLenConfig.edges, (0 : ℚ) ≤ er.dist) := by
+  refine ⟨by decide +kernel, ?_⟩
+  intro h
+  have := h ⟨1, 2, -50⟩ (by simp [negLenConfig, dijkstraConfig, staleConfig])
+  norm_num at this
+
 /-- the closed forms on the Dijkstra route s→w→u→v→t of `dijkstraConfig` (edges 1, 2, 3, 4; a 2000 s
 delay for the right turn onto the third edge): the hypotheses of the route-level theorems are met,
 the link relation holds, the summary is distance 400 and time 2000, and that is what the closed
@@ -638,15 +746,7 @@ example : ∃ res route, runVertexOriented dijkstraConfig.inst 0 (some 4) [0, 1,
       (RouteSums.timeTerm dijkstraConfig.trav dijkstraConfig.edges .seconds)).sum +
       ((RouteSums.pairs [1, 2, 3, 4]).map
         (fun p => RouteSums.turnDelayTerm dijkstraConfig .seconds p.1 p.2)).sum = 2000 := by
-  have hadj : dijkstraConfig.AdjConsistent := by
-    intro v e he
-    match v with
-    | 0 => simp [Config.inst, dijkstraConfig, staleConfig] at he; rcases he with rfl | rfl <;> rfl
-    | 1 => simp [Config.inst, dijkstraConfig, staleConfig] at he; subst he; rfl
-    | 2 => simp [Config.inst, dijkstraConfig, staleConfig] at he; subst he; rfl
-    | 3 => simp [Config.inst, dijkstraConfig, staleConfig] at he; subst he; rfl
-    | 4 => simp [Config.inst, dijkstraConfig, staleConfig] at he
-    | n + 5 => simp [Config.inst, dijkstraConfig, staleConfig] at he
+  have hadj : dijkstraConfig.AdjConsistent := dijkstraConfig_adj
   have hstates : routeStatesOf (dijkstraConfig.runVertex 0 (some 4) [0, 1, 2, 3, 4]) =
       some [[(1, [100, 0]), (2, [200, 0]), (3, [300, 2000]), (4, [400, 2000])]] := by
     decide +kernel
@@ -677,6 +777,49 @@ the turn delay between them charged -/
 example : routeStatesOf (dijkstraConfig.runEdge 2 (some 3) []) =
     some [[(2, [100, 0]), (3, [200, 2000])]] := by decide +kernel
 
+/-- `dijkstra_edge_oriented_route_monotone` on that query: its premises are met by `dijkstraConfig`
+(non-negative lengths and delays), and the inner route w→u→v is monotone in both slots -/
+example : ∃ r inner origin dest, dijkstraConfig.runEdge 1 (some 4) [1, 2, 3] = .ok r ∧
+    r.routes = [origin :: inner ++ [dest]] ∧
+    ∀ k (hk : k + 1 < inner.length),
+      (∀ x y, inner[k].state[0]? = some x → inner[k + 1].state[0]? = some y → x ≤ y) ∧
+      (∀ x y, inner[k].state[1]? = some x → inner[k + 1].state[1]? = some y → x ≤ y) := by
+  have hstates : routeStatesOf (dijkstraConfig.runEdge 1 (some 4) [1, 2, 3]) =
+      some [[(1, [0, 0]), (2, [100, 0]), (3, [200, 2000]), (4, [200, 2000])]] := by decide +kernel
+  cases hrun : dijkstraConfig.runEdge 1 (some 4) [1, 2, 3] with
+  | error k => simp [hrun, routeStatesOf] at hstates
+  | ok r =>
+    obtain ⟨inner, origin, dest, hroutes, _, hmono⟩ :=
+      dijkstra_edge_oriented_route_monotone dijkstraConfig dijkstraConfig_adj rfl 1 4 [1, 2, 3] r
+        ⟨0, 1, 100⟩ ⟨3, 4, 100⟩ rfl rfl (by decide) (by decide) hrun
+        (i := 0) (fu := .meters) (by decide) rfl (j := 1) (ftu := .seconds) (by decide) rfl
+        dijkstraConfig_lengths_nonneg dijkstraConfig_delays_nonneg
+    exact ⟨r, inner, origin, dest, rfl, hroutes, hmono⟩
+
+/-- a state model with a distance feature only (no "time" feature, no access model): outside
+`dijkstra_route_monotone`, inside `dijkstra_route_distance_monotone` -/
+def distanceOnlyConfig : Config ℚ := { dijkstraConfig with
+  feats := [{ name := "distance", kind := .dist .meters, init := 0 }]
+  access := .noAccess
+  cost := { indices := [0], weights := [1], vehicleRates := [.raw], networkRates := [.zero],
+            agg := .sum } }
+
+example : ∃ res route, runVertexOriented distanceOnlyConfig.inst 0 (some 4) [0, 1, 2, 3, 4] = .ok res ∧
+    res.route = some route ∧ route ≠ [] ∧
+    featIndex distanceOnlyConfig.feats "time" = none ∧
+    ∀ k (hk : k + 1 < route.length) x y, route[k].state[0]? = some x →
+      route[k + 1].state[0]? = some y → x ≤ y := by
+  have hadj : distanceOnlyConfig.AdjConsistent := dijkstraConfig_adj
+  have hstates : routeStatesOf (distanceOnlyConfig.runVertex 0 (some 4) [0, 1, 2, 3, 4]) =
+      some [[(1, [100]), (2, [200]), (3, [300]), (4, [400])]] := by decide +kernel
+  cases hrun : runVertexOriented distanceOnlyConfig.inst 0 (some 4) [0, 1, 2, 3, 4] with
+  | error k => simp [Config.runVertex, hrun, routeStatesOf] at hstates
+  | ok res =>
+    obtain ⟨route, h1, h2, _, hmono⟩ :=
+      dijkstra_route_distance_monotone distanceOnlyConfig hadj rfl (by decide) hrun
+        (i := 0) (fu := .meters) (by decide) rfl dijkstraConfig_lengths_nonneg
+    exact ⟨res, route, rfl, h1, h2, by decide, hmono⟩
+
 /-! ### The route summary of the response (`construct_route_output`)
 
 `construct_route_output` (`plugin/output/default/traversal/plugin.rs`) writes
@@ -693,7 +836,9 @@ response, "cannot find result route state when route is empty") -/
 def traversalSummary (m : StateModel α) (route : List (Branch α)) : Option (List (String × α)) :=
   route.getLast?.map (fun last => m.serializeState last.state)
 
-/-- the reported summary is the serialisation of `routeSummary` — the state after the last edge —
+/-- the reported summary is the serialisation of `routeSummary` — the state after the last edge
+(this first conjunct holds **by construction of the model**: `traversalSummary` and `routeSummary` are
+both defined through `route.getLast?`; its content is the reading of `construct_route_output` above) —
 and, for a state model represented by the configuration's features, it pairs every feature's name with
 that state's value in the feature's slot (hence with the closed forms of `dijkstra_route_summary` /
 `dijkstra_edge_oriented_route_summary`) -/
